@@ -35,7 +35,7 @@ func (c12) Assumptions() []string {
 func (c12) Batches(tier string, seed uint64) []core.Batch {
 	var b []core.Batch
 	b = append(b, spread("stream", 8, tierN(tier, 60, 600))...)
-	b = append(b, spread("verify", 8, tierN(tier, 400, 4000))...)
+	b = append(b, spread("verify", 8, tierN(tier, 1200, 6000))...)
 	return b
 }
 
